@@ -716,7 +716,13 @@ class Interp:
             store = self.externals.setdefault("__modconst__", {})
             key = id(obj)
             if key not in store:
-                sub = Interp({}, {}, self.region, {}, None, externals=self.externals)
+                # module scope: the scenario's stand-ins for module-level names (kept in the flat environment) are what the
+                # initialiser sees; the interpreted function's own parameters and locals are not
+                fn_ = home.func_of(e)
+                own_ = set()
+                if fn_ is not None:
+                    own_ = {n_.id for n_ in ast.walk(fn_) if isinstance(n_, ast.Name) and isinstance(n_.ctx, ast.Store)} | {a.arg for a in ast.walk(fn_) if isinstance(a, ast.arg)}
+                sub = Interp({k_: v_ for k_, v_ in self.env.items() if k_ not in own_}, {}, self.region, {}, None, externals=self.externals)
                 store[key] = sub.eval(obj)
             return store[key]
         return _NOHOME
